@@ -274,6 +274,12 @@ def FirstObs.beq : FirstObs → FirstObs → Bool
   | _, _ => false
 instance : BEq FirstObs := ⟨FirstObs.beq⟩
 
+def firstObsOf : FirstOut → FirstObs
+  | .found v => .found v
+  | .default => .default
+  | .raised e => .raised e
+  | .oof => .oof
+
 /-- how `first(key, default)` ends on a stream: at the `i`-th item (its key is truthy, or
     raises), or at the end of the stream -/
 inductive FirstRef where
